@@ -28,8 +28,16 @@ def main():
         return 3
     if a.replay:
         w = json.load(open(a.replay))
+        if "harness" in w and isinstance(w.get("failure"), dict):
+            # a failure of a bounded stand-in: re-run exactly that case on the real code (exit 1 if it still fails)
+            import subprocess
+            env = dict(os.environ, VERIF_REPO=driver.repo_path(), PYTHONPATH=driver.repo_path() + os.pathsep + ROOT)
+            p = subprocess.run([driver.VENV_PY, os.path.join(ROOT, "bounded", w["harness"]), "--replay",
+                                json.dumps(w["failure"].get("input"))], env=env, cwd=driver.repo_path())
+            return 1 if p.returncode == 1 else (0 if p.returncode == 0 else 3)
         if "inputs" not in w:
-            print(json.dumps(w, indent=1)[:3000])
+            # an obligation without a replayable input (no-failing-input-found): show the verifier's output
+            print(json.dumps(w, indent=1)[:6000])
             return 0
         v = driver.native_replay(w, a.replay + ".rerun")
         print(json.dumps(v, indent=1))
